@@ -367,6 +367,14 @@ var bodies = []body{
 	{"lambda-call-argument-breaks-inner-loop", "", "let f = fn(x: int) -> int { x + 1 }; for k in 0..2 { acc = f({ if k == 1 { break; } k }) % 5; }", false},
 	{"nested-lambda-calls", "", "let f = fn(x: int) -> int { x + 1 }; let g = fn(x: int) -> int { x * 2 }; acc = f(g(f(i))) % 5;", false},
 	{"lambda-throws-inside", "", "let f = fn(x: int) -> int { if x % 2 == 1 { throw(\"in\"); } x }; try { acc = f(i) % 5; } catch e { acc += 1; }", false},
+	// exceptions raised by builtins (not by `throw`) and caught: nothing of the failed call may stay behind
+	{"builtin-exception-parse-int", "", "try { acc = \"x\".parse_int(); } catch e { acc += 1; }", false},
+	{"builtin-exception-unwrap-none", "", "let o: ?int = none; try { acc = o.unwrap(); } catch e { acc += 1; }", false},
+	{"builtin-exception-parse-json", "", "try { let v = \"{bad\".parse_json() as int; acc = v; } catch e { acc += 1; }", false},
+	{"builtin-exception-failed-cast", "", "try { acc = \"\\\"s\\\"\".parse_json() as int; } catch e { acc += 1; }", false},
+	{"builtin-exception-failed-let-validation", "", "try { let v: int = \"\\\"s\\\"\".parse_json(); acc = v; } catch e { acc += 1; }", false},
+	{"builtin-exception-in-callee", "fn p(s: str) -> int { s.parse_int() }", "try { acc = p(\"x\"); } catch e { acc += 1; }", false},
+	{"builtin-exception-with-pending-operands", "", "try { acc = 1 + (2 + \"x\".parse_int()); } catch e { acc += 1; }", false},
 	{"short-circuit", "", "if i > 1 && i % 2 == 0 || i == 0 { acc += 1; }", false},
 	{"assign-compound", "", "acc += 1; acc -= 1; acc *= 1;", false},
 	{"index-assign", "", "let l = [1, 2]; l[0] = i; l[1] += 1;", false},
